@@ -35,7 +35,14 @@ def replay_fn(cfg, func, a):
   st, A = adapters.load_real_stack(), adapters.RealNP
   n, cohort, seed = cfg
   try:
-    if func == 'stream_sampler':
+    if func == 'stream_sampler_tape':
+      # real numpy draws its own shuffles: look for a seed whose stream has a round straddling two passes with a repeated client
+      r = None
+      for sd in range(40):
+        r = _stream_real(h, client_samplers, st, A, 3, 2, a['start'], sd)
+        if r:
+          break
+    elif func == 'stream_sampler':
       r = h.scenario_stream(client_samplers, st, A, a['n'], a['cohort'], a['start'], a['seed0'], ID_BYTES.get)
     else:
       order = [h.ROUNDS[a[k]] for k in ('i1', 'i2', 'i3') if k in a]
@@ -44,6 +51,19 @@ def replay_fn(cfg, func, a):
   except Exception as e:   # pylint: disable=broad-except
     r = 'real code raises %r' % (e,)
   return (r is not None), (r or 'real sampler is a function of (seed, round) on bytes ids with trailing zero bytes')
+
+
+def _stream_real(h, cs, st, A, n, cohort, start, seed):
+  import numpy as np
+  fd = h.make_fd(st, A, n, ID_BYTES.get)
+
+  def run(start_round, rounds):
+    s = cs.UniformShuffledClientSampler(fd.shuffled_clients(buffer_size=2, seed=seed), cohort, start_round)
+    return [[(c[0], tuple(int(v) for v in np.asarray(c[2]).reshape(-1))) for c in s.sample()] for _ in range(rounds)]
+  full, rest = run(0, start + 2), run(start, 2)
+  if rest != full[start:]:
+    return 'seed %d: streaming sampler restarted at round %d gives %r, the original run gave %r' % (seed, start, [[c[0] for c in r] for r in rest], [[c[0] for c in r] for r in full[start:]])
+  return None
 
 
 def replay(data):
@@ -59,8 +79,8 @@ def check(run):
                   'numpy RandomState(s) = draws that are a function of s: the permutation behind choice() is symbolic per derived seed and remembered']
   run.assumptions += ['collision-freeness of threefry and of the Lehmer step is outside the claim (distinct rounds are assumed to give distinct derived seeds / keys)',
                       'numpy object-array handling of ids with trailing zero bytes is covered only by the replay on real bytes ids']
-  g = [(3, 2, 0), (3, 3, 1), (2, 1, 0), (3, 1, 1), (4, 3, 0)] if run.tier == 'quick' else [(n, c, s) for n in (1, 2, 3) for c in range(1, n + 1) for s in (0, 1)]
-  g3 = [(4, 2, 0), (4, 4, 1), (3, 3, 0)] if run.tier == 'quick' else [(n, c, s) for n in (3, 4) for c in range(1, n + 1) for s in (0, 1)]
+  g = [(3, 2, 0), (3, 3, 1), (2, 1, 0), (3, 1, 1)] if run.tier == 'quick' else [(n, c, s) for n in (1, 2, 3) for c in range(1, n + 1) for s in (0, 1)]
+  g3 = [(4, 2, 0), (4, 4, 1), (3, 3, 0), (4, 3, 0)] if run.tier == 'quick' else [(n, c, s) for n in (3, 4) for c in range(1, n + 1) for s in (0, 1)]
   run.bounds = {'clients': '1..4', 'cohort': '1..clients', 'requested rounds': '2 (symbolic draws) or 3 (fixed draws) from {0,1,2,5} in any order with repeats',
                 'streaming sampler': 'clients 2..4, cohort 1..2, restart at round 0..2, seeds 0 and 3'}
   # oracle accepts the real sampler on the repo's own test-like input
@@ -78,10 +98,12 @@ def check(run):
     meta.append((c, 'get_sampler3', ['i1', 'i2', 'i3']))
   jobs.append((HARNESS, 'stream_sampler', timeout, None))
   meta.append(((0, 0, 0), 'stream_sampler', ['n', 'cohort', 'start', 'seed0']))
+  jobs.append((HARNESS, 'stream_sampler_tape', timeout, None))
+  meta.append(((0, 0, 0), 'stream_sampler_tape', ['flips', 'start']))
   jobs.append((HARNESS, 'get_sampler_reach', timeout, {'C13_CFG': '3,2,0'}))
   res = xh.run_many(jobs, workers=14)
   for (c, func, names), r in zip(meta, res[:-1]):
-    name = '%s[clients=%d,cohort=%d,seed=%d]' % ((func,) + c) if func != 'stream_sampler' else func
+    name = '%s[clients=%d,cohort=%d,seed=%d]' % ((func,) + c) if not func.startswith('stream_sampler') else func
     if r['status'] == 'confirmed':
       run.ob(name, 'confirmed', r['secs'], detail={'crosshair': 'Confirmed over all paths'})
     elif r['status'] == 'refuted':
@@ -93,7 +115,7 @@ def check(run):
         continue
       ok, msg = replay_fn(c, func, a)
       a['cfg'] = list(c)
-      key = 'stream-restart' if func == 'stream_sampler' else ('history-dependent-or-wrong-draw' if 'expected' in msg or 'differ' in msg else 'sampler')
+      key = 'stream-restart' if func.startswith('stream_sampler') else ('history-dependent-or-wrong-draw' if 'expected' in msg or 'differ' in msg else 'sampler')
       run.violation(key if ok else 'unreproduced:' + name, '%s with %s: %s' % (name, {k: v for k, v in a.items() if k != 'cfg'}, msg), {'func': func, 'args': repr(a)}, ok)
     else:
       run.ob(name, 'unknown', r['secs'], detail=r['message'][:300])
